@@ -647,3 +647,75 @@ INTRINSICS.update({'verifStubProof': i_stub_proof, 'verifProofCoord': i_proof_co
 BASE.update({'encoding/json.Marshal': json_Marshal, 'encoding/json.Unmarshal': json_Unmarshal,
              'opaque:proof.WriteRawTo': proof_WriteRawTo, 'opaque:proof.ReadFrom': proof_ReadFrom, 'bytes.NewReader': bytes_NewReader,
              'github.com/consensys/gnark/backend/groth16.NewProof': groth16_NewProof})
+
+
+# ------------------------------------------------------------------------------------------ bytes.Trim* with a zero-byte cutset; sync.Pool
+def _trim(ex, st, args, ctx, left, right):
+    used('bytes.Trim/TrimLeft/TrimRight with cutset "\\x00" on at most 32 bytes')
+    s, cut = args
+    cz = z3.simplify(cut.z)
+    if not (z3.is_string_value(cz) and cz.as_string() in ('\x00', '\\u{0}', '\\x00')):
+        raise Unsupported('bytes.Trim with cutset %s' % cz)
+    v = bytes_value(ex, st, s)            # big-endian value of the (<= 32) bytes
+    if not isinstance(s.len, int):
+        raise Unsupported('bytes.Trim on symbolic-length input')
+    n = s.len
+    tz = bvval(0, 64)
+    if right:
+        for k in range(n, 0, -1):         # number of trailing zero bytes
+            tz = z3.If(z3.Extract(8 * k - 1, 0, v) == 0, bvval(k, 64), tz) if k < 32 or True else tz
+        tz = z3.simplify(tz)
+        v = z3.simplify(z3.LShR(v, z3.ZeroExt(BIG - 64, tz * 8)))
+    if left:
+        L = bytelen(v)
+    else:
+        L = z3.simplify(bvval(n, 64) - tz)
+    sh = z3.ZeroExt(BIG - 64, bvval(8, 64) * (bvval(32, 64) - L))
+    y = z3.simplify(v << sh)
+    return new_bytes(ex, st, byte_cells_of_bv(y, 32), L, 0, 32)
+
+
+def sync_pool_get(ex, st, args, ctx):
+    used('sync.Pool.Get: returns the most recently Put object if any (worst case for stale state), else New()')
+    p = args[0]
+    pool = st.heap.setdefault(('pool', p.obj, p.path), [])
+    if pool:
+        return pool[-1]
+    newf = ex.load(st, p).f[-1]
+    if not isinstance(newf, Func):
+        return NIL
+    return ('tailcallv', newf, [])
+
+
+def sync_pool_put(ex, st, args, ctx):
+    p = args[0]
+    key = ('pool', p.obj, p.path)
+    st.heap[key] = list(st.heap.get(key, [])) + [args[1]]
+    return None
+
+
+BASE.update({'bytes.Trim': lambda ex, st, a, c: _trim(ex, st, a, c, True, True), 'bytes.TrimLeft': lambda ex, st, a, c: _trim(ex, st, a, c, True, False),
+             'bytes.TrimRight': lambda ex, st, a, c: _trim(ex, st, a, c, False, True), '(*sync.Pool).Get': sync_pool_get, '(*sync.Pool).Put': sync_pool_put})
+
+
+def bytes_NewBuffer(ex, st, args, ctx):
+    tid = ex.tid_by_str.get('bytes.Buffer')
+    if tid is None:
+        raise Unsupported('bytes.Buffer type not in the dump')
+    z = ex.zero(tid)
+    f = list(z.f)
+    f[0] = args[0]
+    return Ptr(st.alloc(Struct(f)))
+
+
+def buffer_Reset(ex, st, args, ctx):
+    ex.store(st, Ptr(args[0].obj, args[0].path + (0,)), Slice(None, 0, 0, 0))
+    return None
+
+
+def buffer_Len(ex, st, args, ctx):
+    b = ex.load(st, args[0]).f[0]
+    return ex.zlen(b) if b is not NIL else bvval(0, 64)
+
+
+BASE.update({'bytes.NewBuffer': bytes_NewBuffer, '(*bytes.Buffer).Reset': buffer_Reset, '(*bytes.Buffer).Len': buffer_Len})
